@@ -698,3 +698,57 @@ Proof.
   - rewrite P in H. inversion H; subst. destruct D3 as [D|[sa0 [l [k [_ [_ D]]]]]]; [|discriminate].
     symmetry in D. apply next_step_not_reevaluate in D. exact D.
 Qed.
+
+(* ---------------------------------------------------------------------------------------- *)
+(** * The durable closure of [record_satisfiability] reaches its fixpoint within its fuel *)
+
+Lemma inherited_members : forall txs sc p, In p (inherited txs sc) ->
+  exists t, In t txs /\ t_id t = fst p /\ t_unsat t = None.
+Proof.
+  intros txs sc p H. unfold inherited in H. apply in_flat_map in H. destruct H as [t [I H]].
+  destruct (negb (is_mined t) && negb (is_some (t_unsat t))) eqn:E; [|destruct H].
+  destruct (inherited_stamp txs sc t); [|destruct H]. destruct H as [<-|[]]. exists t.
+  apply andb_true_iff in E. destruct E as [_ E]. apply negb_true_iff in E.
+  split; [exact I|]. split; [reflexivity|]. destruct (t_unsat t); [discriminate|reflexivity].
+Qed.
+
+Lemma update_first_id_mark : forall txs t u, NoDup (map t_id txs) -> In t txs -> t_unsat t = None ->
+  (cntB (update_first (has_id (t_id t)) (fun x => set_unsat x (Some u)) txs) < cntB txs)%nat.
+Proof.
+  unfold cntB, count. induction txs as [|a l IH]; intros t u ND I U; [destruct I|].
+  inversion ND; subst. simpl. unfold has_id at 1. destruct I as [->|I].
+  - rewrite Z.eqb_refl. simpl. unfold fB at 2. rewrite U. simpl. lia.
+  - destruct (t_id a =? t_id t) eqn:E.
+    + exfalso. apply H1. apply Z.eqb_eq in E. rewrite E. apply in_map. exact I.
+    + simpl. specialize (IH t u H2 I U). destruct (fB a); simpl; lia.
+Qed.
+
+Lemma apply_inherited_strict : forall txs sc, NoDup (map t_id txs) -> inherited txs sc <> [] ->
+  (cntB (apply_inherited txs (inherited txs sc)) < cntB txs)%nat.
+Proof.
+  intros txs sc ND NE. destruct (inherited txs sc) as [|p l] eqn:E; [congruence|].
+  destruct (inherited_members txs sc p) as [t [I [Ei U]]]; [rewrite E; left; reflexivity|].
+  unfold apply_inherited. cbn [fold_left]. rewrite <- Ei.
+  pose proof (update_first_id_mark txs t (snd p, KInherited) ND I U) as S.
+  pose proof (apply_inherited_keeps (0, 0) l (update_first (has_id (t_id t)) (fun x => set_unsat x (Some (snd p, KInherited))) txs)) as K.
+  destruct (keeps_counts (0, 0) [] _ _ K) as [_ [KB _]]. unfold apply_inherited in KB. lia.
+Qed.
+
+Theorem closure_fixpoint : forall fuel txs sc, NoDup (map t_id txs) -> (cntB txs < fuel)%nat ->
+  inherited (closure_loop fuel txs sc) sc = [].
+Proof.
+  induction fuel as [|f IH]; intros txs sc ND F; [lia|]. cbn [closure_loop].
+  destruct (inherited txs sc) as [|p l] eqn:E; [exact E|]. rewrite <- E.
+  apply IH.
+  - rewrite <- (keeps_ids (0, 0) _ _ (apply_inherited_keeps (0, 0) (inherited txs sc) txs)). exact ND.
+  - pose proof (apply_inherited_strict txs sc ND). rewrite E in *. specialize (H ltac:(discriminate)). lia.
+Qed.
+
+(** with the fuel [record_satisfiability] gives it *)
+Corollary record_sat_closed : forall s tg dets, NoDup (map t_id (m_txs s)) ->
+  inherited (m_txs (record_satisfiability s tg dets)) (tg_scanned tg) = [].
+Proof.
+  intros s tg dets ND. unfold record_satisfiability. rewrite txs_set_txs. apply closure_fixpoint.
+  - rewrite <- (keeps_ids (0, 0) _ _ (fold_direct_keeps (0, 0) dets (m_txs s))). exact ND.
+  - pose proof (count_le_length _ fB (fold_left direct_mark dets (m_txs s))). unfold cntB. lia.
+Qed.
